@@ -1,5 +1,6 @@
 CONSTANTS
   MaxPos = 0
+  MaxChain = 0
   TraceFile = "robust_trace.ndjson"
 SPECIFICATION TraceSpec
 CONSTRAINT HighWater
